@@ -77,6 +77,10 @@ func (d *Driver) Open() error {
 		return err
 	}
 
+	// a new session: whatever level a previous session of this driver ended at says nothing about
+	// where the device is now
+	d.CurrentPriv = unknownPriv
+
 	if d.OnOpen != nil {
 		err = d.OnOpen(d)
 		if err != nil {
